@@ -614,6 +614,41 @@ func Generate(r *rand.Rand, p Plan, emit func(Input) bool) {
 		}
 	}
 
+	// (6b) the same command bodies behind an anonymous first-connect handshake sent in the
+	// same burst (the peer has not been authenticated when it sends the bytes; the server
+	// processes the commands on the identity it has just issued)
+	hsFrame := Frame(0x01, hs)
+	for ct := 0; ct < 256 && !stop; ct++ {
+		for v := 0; v < 3; v++ {
+			var body, sub string
+			switch v {
+			case 0:
+				body, sub = "{}", "object"
+			case 1:
+				body, sub = string(randObj(r, cmdBodyFields, 100)), "all-fields-random-types"
+			default:
+				body, sub = string(randObj(r, cmdBodyFields, 35)), "some-fields-random-types"
+			}
+			typ := byte(0x10)
+			if ct == 81 || v == 1 && ct >= 100 {
+				typ = 0x11
+			}
+			s := append(append([]byte(nil), hsFrame...), Frame(typ, CmdJSON(ct, fmt.Sprintf("s-%d-%d", ct, v), body))...)
+			out(Input{Family: "session", Sub: fmt.Sprintf("handshake+cmd=%d/%s", ct, sub), Data: s})
+		}
+	}
+	for i := 0; i < 60 && !stop; i++ {
+		s := append(append([]byte(nil), hsFrame...), Frame(0x20, ValidTunnelOpen(r))...)
+		if i%3 == 0 {
+			s = append(s, Frame(0x20, randObj(r, tunnelFields, 70))...)
+		}
+		if i%4 == 0 {
+			s = append(s, Frame(0x01, ValidHandshake(r))...)
+		}
+		s = append(s, 0x03)
+		out(Input{Family: "session", Sub: "handshake+tunnel-open", Data: s})
+	}
+
 	// (7) truncation of well-formed streams at every offset
 	for i := 0; i < p.TruncSeeds && !stop; i++ {
 		s := validStream(r, 3)
